@@ -71,7 +71,7 @@ func (l *LineFilterPlanner) Process(ctx *shared.PlannerContext) (sql.ISelect, er
 }
 
 func (l *LineFilterPlanner) doLike(likeOp string) (sql.SQLCondition, error) {
-	enqVal, err := l.enquoteStr(l.Val)
+	enqVal, err := l.enquoteStr(strings.Replace(l.Val, `\`, `\\`, -1))
 	if err != nil {
 		return nil, err
 	}
